@@ -89,4 +89,9 @@ TEXT = {
         "level": "Real blocks with irregular times over balancer, stableswap and concentrated pools (incl. emptied/refilled pool for spot-price errors, pruning epochs with 2h..48h keep periods); hundreds of arithmetic/geometric/ToNow queries per history compared with the time-weighted mean over canonical milliseconds (arithmetic exact to the final truncation, geometric within half a unit of the last kept significant figure), min/max bounds, reciprocity, error flag, stability across pruning.",
         "note": "Trusted: RouteCalculateSpotPrice as the source of the end-of-block prices (the property is about averaging, not about the spot price), the harness's 700-bit log2/2^x. The asset1-quoted geometric TWAP is compared with the reciprocal of the asset0-quoted mean (the statement's reciprocity clause). Known finding: geometric TWAP answers 0 when the mean log is exactly 0.",
     },
+    "C11": {
+        "technique": "runtime monitor: invariant-at-a-hook after every message and every refresh epoch, through staking, superfluid, lockup and bank (supply-with-offset) queries, against a model of which locks are delegated through which (asset, validator)",
+        "level": "Generated histories with 3 validators, classic and concentrated superfluid assets, delegations, top-ups, undelegations, unbondings (full/partial), price moves, refresh epochs and jumps past the unbonding period; after every step each intermediary account's stake is compared with the independently recomputed risk-adjusted value of exactly the locks delegated through it (exact after a refresh), the staking/unstaking markers and their end times are checked, the reported OSMO supply must not move, BeginUnlocking on delegated locks must fail, no lock may return before its undelegation matured.",
+        "note": "Trusted: the model of delegated locks built from message responses; minting is switched off (provision 0) so that supply neutrality is an equality. Between refreshes the allowance is 3 units per value conversion (each conversion rounds twice) plus one per lock. Slashing is not driven. Observed, outside the statement: after a refresh the last of several locks of one intermediary account can fail to undelegate by one unit (invalid shares amount).",
+    },
 }
